@@ -44,14 +44,15 @@ def E(t):
 
 
 def run(ctx):
+  # location-independent analyses first: an anchored rule that gives up later must not mask them
+  schema_navigation(ctx)
+  part_state(ctx)
   elements(ctx)
   pitch(ctx)
   conversions(ctx)
   keys(ctx)
   kinds(ctx)
   contain(ctx)
-  schema_navigation(ctx)
-  part_state(ctx)
   from sa import state
   mi = ctx.P.module('musicxml_parser')
   for ci in sorted(mi.all_classes.values(), key=lambda c: c.qualname):
@@ -238,7 +239,45 @@ def _straight(stmts, env=None):
   return env
 
 
+def no_rounding(ctx):
+  """Onsets and durations are "given by the <duration>/<divisions> arithmetic": exact rational arithmetic on the integer read
+  from the XML.  Location-independent: in the functions that turn a <duration> / <offset> into seconds (and the helpers of
+  their class they call) the only rounding construct is the int() that parses the XML text / the duration argument."""
+  mi = ctx.P.module('musicxml_parser')
+  fns = [ctx.func('musicxml_parser:NoteDuration.parse_duration'), ctx.func('musicxml_parser:Measure._parse_backup'), ctx.func('musicxml_parser:Measure._parse_forward')]
+  seen = set(f.qualname for f in fns)
+  for f in list(fns):
+    cls = mi.all_classes.get(f.qualname.rsplit('.', 1)[0])
+    for c in ast.walk(f.node):
+      if isinstance(c, ast.Call) and isinstance(c.func, ast.Attribute) and isinstance(c.func.value, ast.Name) and c.func.value.id == 'self' and cls is not None and \
+          c.func.attr in cls.methods and cls.methods[c.func.attr].qualname not in seen:
+        fns.append(cls.methods[c.func.attr])
+        seen.add(cls.methods[c.func.attr].qualname)
+  n = 0
+  for f in fns:
+    params = set(f.params())
+    for c in ast.walk(f.node):
+      bad = None
+      if isinstance(c, ast.Call) and (dotted(c.func) or '') in ('int', 'round', 'math.floor', 'math.ceil', 'math.trunc', 'np.round', 'numpy.round'):
+        a = c.args[0] if c.args else None
+        parses = dotted(c.func) == 'int' and a is not None and ((isinstance(a, ast.Name) and a.id in params) or (isinstance(a, ast.Attribute) and a.attr == 'text'))
+        if not parses:
+          bad = c
+      elif isinstance(c, ast.BinOp) and isinstance(c.op, ast.FloorDiv):
+        bad = c
+      elif isinstance(c, ast.AugAssign) and isinstance(c.op, ast.FloorDiv):
+        bad = c
+      if bad is not None:
+        n += 1
+        ctx.ob('CONV/no-rounding', f, bad, False, '%s rounds on the way from <duration>/<divisions> to seconds (%s): onsets and durations are no longer the exact quotient' % (
+            f.qualname, norm_text(bad)[:80]), construct='no rounding in %s' % f.qualname, definite=True)
+  if not n:
+    ctx.ob('CONV/no-rounding', fns[0], fns[0].node, True, '%d conversion functions use exact division only (int() only parses the XML number)' % len(fns),
+           construct='no rounding between <duration> and seconds')
+
+
 def conversions(ctx):
+  no_rounding(ctx)
   sites = [
       ('musicxml_parser:NoteDuration.parse_duration', 'self.seconds', 'self.duration'),
       ('musicxml_parser:Measure._parse_backup', 'seconds', 'backup_duration'),
@@ -528,17 +567,39 @@ def part_state(ctx):
   part = ctx.func('musicxml_parser:Part._parse')
   loop = next((i for i, st in enumerate(part.node.body) if isinstance(st, ast.For) and any(isinstance(c, ast.Call) and dotted(c.func) == 'Measure' for c in ast.walk(st))), None)
   ctx.require(loop is not None, 'Part._parse: the loop constructing Measure objects was not found')
+  # the reset may be delegated to a method of the state object called before the measures: self._state.<method>(args)
+  state_cls = mi.all_classes.get('MusicXMLParserState')
+  delegated = {}     # field -> value text with the helper's parameters replaced by the call's arguments
+  for st in part.node.body[:loop]:
+    if isinstance(st, ast.Expr) and isinstance(st.value, ast.Call) and isinstance(st.value.func, ast.Attribute) and \
+        norm_text(st.value.func.value) in ('self._state', 'self.state') and state_cls is not None and st.value.func.attr in state_cls.methods:
+      h = state_cls.methods[st.value.func.attr]
+      hp = h.params()
+      amap = dict(zip(hp[1:], st.value.args))
+      amap.update({k.arg: k.value for k in st.value.keywords if k.arg})
+      for hs in h.node.body:       # top level of the helper only: unconditional
+        if isinstance(hs, ast.Assign) and len(hs.targets) == 1 and isinstance(hs.targets[0], ast.Attribute) and norm_text(hs.targets[0].value) == hp[0]:
+          v = hs.value
+          txt = norm_text(v)
+          if isinstance(v, ast.Attribute) and isinstance(v.value, ast.Name) and v.value.id in amap:
+            txt = norm_text(amap[v.value.id]) + '.' + v.attr
+          elif isinstance(v, ast.Name) and v.id in amap:
+            txt = norm_text(amap[v.id])
+          delegated[hs.targets[0].attr] = (txt, v, hs)
   for f, (kind, val, why) in sorted(PER_PART.items()):
     sts = [st for st in part.node.body[:loop] if isinstance(st, ast.Assign) and len(st.targets) == 1 and isinstance(st.targets[0], ast.Attribute) and st.targets[0].attr == f and
            norm_text(st.targets[0].value) in ('self._state', 'self.state')]
-    ok = len(sts) == 1
-    if ok and kind == 'const':
-      ok = U.const_value(sts[0].value) == val
-    elif ok:
-      ok = norm_text(sts[0].value) == 'self.score_part.' + val
+    got = None
+    if len(sts) == 1:
+      got = ('const', U.const_value(sts[0].value)) if U.const_value(sts[0].value) is not None else ('expr', norm_text(sts[0].value))
+    elif not sts and f in delegated:
+      txt, v, hs = delegated[f]
+      got = ('const', U.const_value(v)) if U.const_value(v) is not None else ('expr', txt)
+    ok = got is not None and (got == ('const', val) if kind == 'const' else got == ('expr', 'self.score_part.' + val))
+    # the statements before the measure loop and the state method they call were both read: a field found in neither is not reset
     ctx.ob('STATE/part-reset', part, sts[0] if sts else part.node, ok, 'state.%s is re-initialised when a part starts (%s)' % (f, why) if ok else
            'the shared parser state field %s is not re-initialised at the start of a part (%s): it leaks from the previous part' % (f, why),
-           construct='Part._parse resets state.%s' % f)
+           construct='Part._parse resets state.%s' % f, definite=(got is None and len(sts) == 0))
 
 
 MUTANTS = [
